@@ -1,5 +1,8 @@
 """C06 - struct fields keep WGSL order, names and element types."""
+import re
+
 from common import coq_options, coq_string
+import obs
 import structcases
 import structgen
 
@@ -51,14 +54,111 @@ def cases(rng, tier):
     return out
 
 
+ELIGIBLE = lambda c: not c.get("leaf") and not (c["opts"].get("mv") == "Nalgebra" and c["opts"].get("encase"))
+
+
+def run_cases(plain, cases_, workdir, tag):
+    # behavioural level: 30 struct programs are compiled and rustc reports every field's name and type
+    return obs.attach(plain, cases_, workdir, tag, ELIGIBLE, 30 if "search" not in tag else 0)
+
+
+PRIMS = {"f32": "PF32", "f64": "PF64", "i32": "PI32", "u32": "PU32", "bool": "PBool", "i8": "PI8", "u8": "PU8",
+         "i16": "PI16", "u16": "PU16", "i64": "PI64", "u64": "PU64"}
+GLAM = {"Vec2": (2, "PF32"), "Vec3": (3, "PF32"), "Vec4": (4, "PF32"), "DVec2": (2, "PF64"), "DVec3": (3, "PF64"), "DVec4": (4, "PF64"),
+        "UVec2": (2, "PU32"), "UVec3": (3, "PU32"), "UVec4": (4, "PU32"), "IVec2": (2, "PI32"), "IVec3": (3, "PI32"), "IVec4": (4, "PI32")}
+GLAM_M = {"Mat2": (2, "PF32"), "Mat3": (3, "PF32"), "Mat4": (4, "PF32"), "DMat2": (2, "PF64"), "DMat3": (3, "PF64"), "DMat4": (4, "PF64")}
+
+
+def shape_of_type_name(t):
+    """rustc's std::any::type_name of a field -> the shape term of Spec/C06Spec.v ([denote] read by rustc itself)"""
+    t = t.strip()
+    if t.startswith("[") and t.endswith("]"):
+        depth, cut = 0, None
+        for i, ch in enumerate(t):
+            if ch in "[<(":
+                depth += 1
+            elif ch in "]>)":
+                depth -= 1
+            elif ch == ";" and depth == 1:
+                cut = i
+        return "(SArr %d%%N %s)" % (int(t[cut + 1:-1].strip()), shape_of_type_name(t[1:cut]))
+    mm = re.match(r"^(?:alloc::vec::)?Vec<(.*)>$", t)
+    if mm:
+        return "(SVecOf %s)" % shape_of_type_name(mm.group(1))
+    if t in PRIMS:
+        return "(SScalar %s)" % PRIMS[t]
+    mm = re.match(r"^nalgebra::.*?SVector<(\w+), (\d+)>$", t) or re.match(r"^nalgebra::SVector<(\w+), (\d+)>$", t)
+    if mm:
+        return "(SArr %s%%N (SScalar %s))" % (mm.group(2), PRIMS[mm.group(1)])
+    mm = re.match(r"^nalgebra::.*?SMatrix<(\w+), (\d+), (\d+)>$", t)
+    if mm:
+        if mm.group(3) == "1":          # the stub's SVector<T, N> is SMatrix<T, N, 1>
+            return "(SArr %s%%N (SScalar %s))" % (mm.group(2), PRIMS[mm.group(1)])
+        return "(SArr %s%%N (SArr %s%%N (SScalar %s)))" % (mm.group(3), mm.group(2), PRIMS[mm.group(1)])
+    last = t.split("::")[-1]
+    if t.startswith("glam::") and last in GLAM:
+        return "(SArr %d%%N (SScalar %s))" % GLAM[last]
+    if t.startswith("glam::") and last in GLAM_M:
+        n, p_ = GLAM_M[last]
+        return "(SArr %d%%N (SArr %d%%N (SScalar %s)))" % (n, n, p_)
+    return '(SNamed "%s"%%string)' % last
+
+
+def behavioural(c, r):
+    """(b) from the compiled module alone: every emitted struct lists the WGSL members in order under their names, with
+    field types that denote the member's shape (non-square matrices under arrays / glam are the listed known finding)"""
+    o = r.get("obs")
+    if not isinstance(o, dict) or not isinstance(o.get("structs"), dict):
+        return None, "no observations"
+    for s_ in c["truth"]:
+        st = o["structs"].get(s_["name"])
+        if st is None:
+            return False, "struct %s missing from the compiled module" % s_["name"]
+        got = [(f["name"], f.get("type_name", "")) for f in st["fields"]]
+        if [g[0] for g in got] != [m[0] for m in s_["members"]]:
+            return False, "%s: fields %s, WGSL members %s" % (s_["name"], [g[0] for g in got], [m[0] for m in s_["members"]])
+        for (fn, tn), (mn, shape) in zip(got, s_["members"]):
+            try:
+                sh = shape_of_type_name(tn)
+            except Exception:
+                continue
+            mm = re.search(r"SArr (\d)%N \(SArr (\d)%N \(SScalar", shape)
+            kf_nonsq = bool(mm) and mm.group(1) != mm.group(2) and c["opts"].get("mv") != "Nalgebra"
+            if sh != shape and not kf_nonsq:
+                return False, "%s.%s has Rust type %s (%s), the WGSL member has shape %s" % (s_["name"], fn, tn, sh, shape)
+    return True, ""
+
+
+def verdict_expr_noout(c, r, ir):
+    if "obs" not in r or r.get("result") != "ok":
+        return None
+    if obs.not_compiled(r):
+        return None
+    ok, why = behavioural(c, r)
+    if ok is None:
+        return None
+    c["note"] = "output not recognised by the extractor (%s); %s" % (r.get("extract_err"), why)
+    return "[true; false; %s; false]" % ("true" if ok else "false")
+
+
+def _obs_clause(c, r):
+    if "obs" not in r or r.get("result") != "ok" or obs.not_compiled(r):
+        return "true"
+    ok, why = behavioural(c, r)
+    if ok is False:
+        c["note"] = why
+        return "false"
+    return "true"
+
+
 def verdict_expr(c, r, ir, real):
     t = "[" + "; ".join("(%s, [%s])" % (coq_string(s["name"]), "; ".join("(%s, %s)" % (coq_string(n), sh) for n, sh in s["members"]))
                         for s in c["truth"]) + "]"
     o = coq_options(c["opts"])
     return ('[wf %s && wf_io_structs %s; agree_res agree_C06 (gen %s ""%%string None %s) %s; '
-            'match %s with Ok o => C06_ok %s %s o && truth_shapes_ok o %s | Panic _ => %s | _ => false end; '
+            'match %s with Ok o => C06_ok %s %s o && truth_shapes_ok o %s && OBSC | Panic _ => %s | _ => false end; '
             'match %s with Ok o => C06_ok_kf %s %s o && kf_nonsquare %s %s | _ => false end]'
-            % (ir, ir, ir, o, real, real, ir, o, t, "true" if structcases.panic_expected(c) else "false", real, ir, o, ir, o))
+            % (ir, ir, ir, o, real, real, ir, o, t, "true" if structcases.panic_expected(c) else "false", real, ir, o, ir, o)).replace("OBSC", _obs_clause(c, r))
 
 
 def nontrivial(c, r):
